@@ -34,14 +34,18 @@ def add_prehistory(rng, case, mode):
     if pre:
         case["pre"] = pre
         # make the history matter: wherever c gets its annotated binding, it also gets a plain one (no tag) next to it
-        script, k = [], 0
-        for op in case["script"]:
-            script.append(op)
-            if op[0] == "ann_c" and rng.random() < 0.7:
-                k += 1
-                script.append(["bind_c", 900 + k])
-        case["script"] = script
+        case["script"] = plain_next_to_annotated(rng, case["script"])
     return case
+
+
+def plain_next_to_annotated(rng, ops):
+    script, k = [], 0
+    for op in ops:
+        script.append(op)
+        if op[0] == "ann_c" and rng.random() < 0.7:
+            k += 1
+            script.append(["bind_c", 900 + k])
+    return script
 
 
 def run_world(out, tier, seed, gen_case, plan, rule, salt, sample_filter=None, features_of=None):
